@@ -281,7 +281,10 @@ class Boom(Exception):
 
 
 def writer_fn(z, prog):
-    _, repl, edits, commit = prog   # commit: 1 = leave the with block normally, 0 = rollback(), 2 = raise
+    # commit: 1 = leave the with block normally, 0 = rollback(), 2 = raise an Exception,
+    #         3 / 4 / 5 = leave through a BaseException that is not an Exception (SystemExit as sys.exit() in a
+    #         worker thread does, KeyboardInterrupt, GeneratorExit): every exceptional exit must roll back
+    _, repl, edits, commit = prog
 
     def fn(w):
         w.todo = len(edits)
@@ -302,7 +305,9 @@ def writer_fn(z, prog):
                     txn.rollback()
                 elif commit == 2:
                     raise Boom()
-        except Boom:
+                elif commit >= 3:
+                    raise (SystemExit, KeyboardInterrupt, GeneratorExit)[commit - 3]()
+        except (Boom, SystemExit, KeyboardInterrupt, GeneratorExit):
             pass
         w.phase = "ended"
 
@@ -324,9 +329,22 @@ def reader_fn(z, prog):
         w.result = [txn.version.id, pC11.txn_content(txn)]
         SCHED.gate("read")
         w.result2 = [txn.version.id, pC11.txn_content(txn)]
-        if w.tid % 2:
+        how = w.tid % 4
+        if how == 1:
             with txn:
                 pass            # Transaction.__exit__ commits a read transaction: _end_read
+        elif how == 2:
+            try:
+                with txn:
+                    raise Boom()    # ... and rolls it back on an exception: _end_read as well
+            except Boom:
+                pass
+        elif how == 3:
+            try:
+                with txn:
+                    raise SystemExit()
+            except SystemExit:
+                pass
         else:
             txn.rollback()
 
